@@ -42,6 +42,27 @@ theorem trees_sublist (T : Option Int) (cs : List Int) (s : St) (evts : List Evt
 theorem run_length (T : Option Int) (cs : List Int) (s : St) (evts : List Evt) :
     (run T s cs evts).length = cs.length := run_length' T cs s evts
 
+/-- after StopIteration no later call returns a tree (nor times out) -/
+theorem no_tree_after_stop (T : Option Int) (cs : List Int) (s : St) (evts : List Evt) (i j : Nat) (o : Outcome)
+    (h : (run T s cs evts)[i]? = some .stop) (hij : i ≤ j) (ho : (run T s cs evts)[j]? = some o) :
+    o = .stop := by
+  have hj : j < cs.length := by
+    have := (List.getElem?_eq_some_iff.1 ho).1
+    rwa [run_length] at this
+  have := stop_sticky T cs s evts i j h hij hj
+  rw [this] at ho; exact (Option.some.inj ho).symm
+
+/-- after TimeoutError no later call returns a tree or StopIteration (monotone clock) -/
+theorem no_tree_after_timeout (T : Option Int) (cs : List Int) (s : St) (evts : List Evt) (i j : Nat) (o : Outcome)
+    (hm : Mono evts) (h : (run T s cs evts)[i]? = some .timeout) (hij : i ≤ j)
+    (ho : (run T s cs evts)[j]? = some o) : o = .timeout ∨ o = .outOfEvents := by
+  have hj : j < cs.length := by
+    have := (List.getElem?_eq_some_iff.1 ho).1
+    rwa [run_length] at this
+  rcases timeout_sticky T cs s evts i j hm h hij hj with h' | h' <;> rw [h'] at ho
+  · left; exact (Option.some.inj ho).symm
+  · right; exact (Option.some.inj ho).symm
+
 /-! non-vacuity: two solutions found by the first iteration, then exhaustion; a timeout that sticks -/
 example : run none { qlen := 1, sols := [], start := none } [0, 0, 0, 0]
     [{ now := 0, qafter := 0, found := [7, 8] }] = [.tree 7, .tree 8, .stop, .stop] := by decide +kernel
